@@ -166,7 +166,7 @@ var chanProtocol = map[string]tabEntry{
 	"queryer.(*MultiOpQueryer).Subscribe$1 | local chan struct{} of queryer.(*MultiOpQueryer).Subscribe | select-recv":          {1, "handshake failed: closed by Subscribe on its error return"},
 	"queryer.(*MultiOpQueryer).Subscribe | local chan struct{} of queryer.(*MultiOpQueryer).Subscribe | make":                   {1, "failed: signals the closer that nobody is going to listen"},
 	"queryer.(*MultiOpQueryer).Subscribe | local chan struct{} of queryer.(*MultiOpQueryer).Subscribe | close":                  {1, "on the error return only, never sent on"},
-	"queryer.(*MultiOpQueryer).Subscribe$2 | local chan error of queryer.(*MultiOpQueryer).Subscribe | send":                    {5, "exactly one handshake result per run (four failures, one success)"},
+	"queryer.(*MultiOpQueryer).Subscribe$2 | local chan error of queryer.(*MultiOpQueryer).Subscribe | send":                    {-1, "exactly one handshake result per run: every send is followed by the reader's return or by the read loop, none lies in a cycle and none is reachable from another (computed: singleShotSends), so the number of failure exits that send is layout"},
 	"queryer.(*MultiOpQueryer).Subscribe$2 | subscriptionEntry.respCh | send":                                                   {6, "events, upstream error payloads (list form, single-object form) and the reason why the stream ends (connection lost, undecodable frame, error frame without an error), in arrival order"},
 	"queryer.(*MultiOpQueryer).Subscribe$2$1 | subscriptionEntry.respCh | send":                                                 {1, "nil = upstream finished; sent only when the handshake had succeeded (somebody listens); inside a deferred function with nested recover"},
 }
@@ -249,7 +249,14 @@ func ruleChannels(r *Run) {
 		}
 		seen[key]++
 		site := r.P.pos(op.ins.Pos())
-		if e, ok := chanProtocolN[key]; ok && seen[key] <= e.N {
+		if e, ok := chanProtocolN[key]; ok && e.N < 0 {
+			// a one-shot channel: any number of send sites, at most one of them on a run
+			if r.singleShotSends(op.ch, ops) {
+				r.Tabled(rule, fnName(op.fn), op.kind+" "+op.ch, site, "chanProtocol", e.Reason)
+			} else {
+				r.Bad(rule, fnName(op.fn), op.kind+" "+op.ch, site, "a second value can be sent on a channel whose receiver takes exactly one (a send lies in a loop or is reachable from another send): the sender blocks forever, or panics once the channel is closed")
+			}
+		} else if ok && seen[key] <= e.N {
 			r.Tabled(rule, fnName(op.fn), op.kind+" "+op.ch, site, "chanProtocol", e.Reason)
 		} else {
 			r.Bad(rule, fnName(op.fn), op.kind+" "+op.ch, site, "channel operation outside the frozen teardown/delivery protocol (new operation, different channel, or a plain operation turned into a select alternative / vice versa): the hand-checked argument for close/stop/complete interleavings no longer covers this code")
@@ -261,6 +268,10 @@ func ruleChannels(r *Run) {
 	}
 	sort.Strings(keys)
 	for _, k := range keys {
+		if chanProtocolN[k].N < 0 && seen[k] == 0 {
+			parts := strings.Split(k, " | ")
+			r.Bad(rule, parts[0], "missing "+parts[2]+" "+parts[1], "-", "the protocol expects a `"+parts[2]+"` on "+parts[1]+" in "+parts[0]+", found none: the receiver waits forever")
+		}
 		if seen[k] < chanProtocolN[k].N {
 			parts := strings.Split(k, " | ")
 			r.Bad(rule, parts[0], "missing "+parts[2]+" "+parts[1], "-", fmt.Sprintf("the protocol expects %d `%s` operation(s) on %s in %s, found %d: a handshake step was removed or changed form (e.g. a blocking send/receive became one alternative of a select)", chanProtocolN[k].N, parts[2], parts[1], parts[0], seen[k]))
